@@ -3,7 +3,7 @@
 From V.Lib Require Import Base.
 From V.Gen Require Import C15Tables.
 From V.C15 Require Import Model Spec Sem QModel QSpec Corr Wf Proofs ProofsTree ProofsVec ProofsSeq ProofsCanon Bridge
-  ProofsEmpty QProofs QProofsOps QProofsTerm QProofsMore QProofsPrune QBridge.
+  ProofsEmpty QProofs QProofsOps QProofsTerm QProofsMore QProofsPrune QProofsRewind QBridge.
 Local Open Scope Z_scope.
 
 (** ** Priorities *)
@@ -254,6 +254,25 @@ Theorem C15_trim : forall q mh, chain q -> 0 <= mh ->
   forall h, rows_at (map row_of (trim_scan_queue_to q mh)) h =
             if h <=? Z.min mh (u32_max - 1) then rows_at (map row_of q) h else None.
 Proof. exact trim_spec. Qed.
+
+(** rewind_to_chain_state (also the tail of add_account) on a canonical queue whose recorded chain
+    tip [t] is above the target: with [trunc] the height the wallet data is actually truncated to
+    (at or above the target, inside the pruning window) and a stored row touching target + 1 that
+    survives the truncation: succeeds, canonical, and afterwards a height is Scanned exactly when
+    it was Scanned before and is at or below the TARGET (nothing above the target stays Scanned,
+    whatever the truncation height was). *)
+Theorem C15_rewind : forall c q target floor t,
+  chain q -> chain_tip_height q = Some t -> (forall r, In r q -> 0 <= rs r) ->
+  0 <= target < t -> t < u32_max ->
+  let trimming := match max_scanned c with Some ms => target <? ms | None => false end in
+  let trunc := match max_scanned c with
+               | Some ms => match floor with Some f => f | None => hsub ms (PRUNING_DEPTH - 1) end
+               | None => 0 end in
+  (trimming = true -> target <= trunc < u32_max) ->
+  (exists r, In r q /\ rs r <= target + 1 <= re r /\ (trimming = true -> rs r <= trunc)) ->
+  exists q', rewind_to_chain_state c q target floor = Ok q' /\ chain q' /\
+    (forall h, scanned_at q' h <-> scanned_at q h /\ h <= target).
+Proof. exact rewind_spec. Qed.
 
 (** ** Termination of the client loop *)
 
